@@ -105,6 +105,88 @@ CLAIMED.update({
         ref='§4 C20'),
 })
 
+CLAIMED.update({
+    'C01': dict(
+        text='Theorems: every well-formed optional section of any of the nine kinds (SRC with any callouts, EH, MT, LP, UD, ED, hexdump-only and '
+             'unknown ids) is consumed exactly (frame_section: whatever follows is untouched); the whole decoder maps enc(p) ++ trailing to exactly '
+             'the prescribed document for every well-formed selected PEL (decode_encode, by induction over the section list through the Frames '
+             'combinators); one entry per section in log order under numbered names (entries, numbering_rule = buildOutput two-pass counter); '
+             'unselected PELs yield no document. Pins: nine section ids, published names. Correspondence: abstract PELs with 0..40 (thorough: 253) '
+             'sections encoded by the Lean enc (cross-checked with an independent Python encoder) through the real parsePEL vs model vs spec.',
+        note=BASE + 'Well-formed = PH, UH, then sections each encoded with its computed length; UD/ED/other payload >= 1 byte; display names must not collide (hypothesis hnames, true for the published table); empty message registry.',
+        technique='Lean 4 proof (Frames: exact consumption + prefix rejection, closed under bind; induction over sections) + differential correspondence',
+        ref='§4 C01'),
+    'C02': dict(
+        text='Theorems: field-wise round trips for PH, UH, EH, MT, LP for all field values within their widths and ALL name tables; displayed hex / '
+             '{:02X} / decimal texts determine the encoded value (injectivity); action flags = exactly the defined single bits that are on, in table '
+             'order; BCD time layout; NUL padding stripped and nothing else; PHYP / registry component ids. Pins: every published table entry still '
+             'maps to the same name in the live tables; live action-flag keys are single bits. Correspondence: boundary-biased headers, every table key '
+             'and its neighbours, fixture component-id registry, non-ASCII text for the correspondence only.',
+        note=BASE + 'Text fields are printable ASCII in the theorems (the model decodes UTF-8 in general and is exercised on non-ASCII / invalid UTF-8 by the correspondence).',
+        technique='Lean 4 proof (Frames combinators per field, bit-field lemmas) + differential correspondence',
+        ref='§4 C02'),
+    'C03': dict(
+        text='Theorems: every well-formed SRC (all words, flag bytes, word counts 0..9, any number of callouts with any FRU flag combination, optional '
+             'PCE / MRU, location codes 0..80) decodes to renderSrc, which spells every displayed field out by arithmetic on the encoded values; callouts '
+             'listed in order with Callout Count; hex words 2..wordCount; single-bit tests; MRU ids. Also strictness (every proper prefix rejected) '
+             'including the peek-based substructure walk. Pins: header / error-status / FRU flag masks, SRC types, FRU type and priority tables. '
+             'Correspondence: all FRU x PCE x MRU combinations, the adversarial "PE"/"MR"/"ID" byte pairs, fixture SRC / callout modules, out-of-domain inputs.',
+        note=BASE + 'PARTIAL: the registry message ("Error Details") is not modelled - the sandbox has no pel_registry package, the registry is empty on both sides.',
+        technique='Lean 4 proof (continuation-passing exactness lemmas for nested variable-length records, invariant over the callout loop) + differential correspondence',
+        ref='§4 C03'),
+    'C05': dict(
+        text='Theorems: every proper prefix of a well-formed selected PEL is rejected with an error (strict half of Frames, for all section kinds incl. SRC '
+             'callouts); reads return exactly the next n bytes / fail past the end; whatever the input, the decoder consumes a prefix of it (Suffixing '
+             'invariant through every reader incl. the fuelled loops); exit status of --file is 0 or 1. Totality: every model function is structural or '
+             'fuelled recursion, so an outcome exists for every byte string. Correspondence/observation: every prefix and sampled single-byte corruptions '
+             'of generated PELs and random bytes through the real parsePEL (outcome AND document compared with the model), CLI runs under python and '
+             'python -O (exit status, no traceback, stdout empty or JSON, prefixes never decoded), per-input timing.',
+        note=BASE + 'PARTIAL by nature: "promptly", "no traceback" and the -O behaviour are observed on the real interpreter, not proved.',
+        technique='Lean 4 proof (Frames strictness, prefix-consumption invariant) + differential correspondence + subprocess observation under -O',
+        ref='§4 C05'),
+    'C10': dict(
+        text='Theorems: all six spellings of a 32-bit id normalise to its eight upper-case digits; the --plid comparison is equality of the ids; --plid and '
+             '--src list exactly the matching summaries in presentation order; --id / --bmc-id report "PEL not found" exactly when nothing matches and '
+             'display only a matching file; decimal ids are injective; isInfix = contiguous substring; look-ups without options consider every PEL. '
+             'Correspondence: real CLI look-ups on generated directories (ids below 0x10000000, hidden PELs, absent ids, over-long arguments).',
+        note=BASE + 'os.walk order is a parameter of the model.',
+        technique='Lean 4 proof (normalisation + injectivity lemmas, filterMap equalities) + differential correspondence',
+        ref='§4 C10'),
+    'C11': dict(
+        text='Theorems: --delete removes at most one file, a top-level file whose name contains the processed id, and keeps every other file; not found / '
+             'bad id => nothing removed; --delete-all empties the top level; --json creates only <file>.<eid>.json for decodable selected inputs and removes '
+             'inputs only with --clean and only those. Read-only modes and subdirectories are outside what the mutating functions can touch by construction. '
+             'Correspondence/observation: recursive tree snapshots before/after real invocations of every mode and mixes of modes.',
+        note=BASE + 'Frame conditions of the read-only modes hold by the types of the model (they return no directory); the real code is held to them by snapshots.',
+        technique='Lean 4 proof (frame conditions on an abstract directory) + tree-snapshot observation',
+        ref='§4 C11'),
+    'C12': dict(
+        text='Theorems (every number of writes, every fault plan, every prefix of the trace = every crash point): a removal of the input occurs only after '
+             'open, all writes and close (resp. print and flush) succeeded; any earlier fault, a decode failure or a filtered PEL leaves the input in place; '
+             'removal iff nothing faults. Correspondence: fault-injecting proxies for open / write / close / stdout / os.remove around the real main(), '
+             'ENOSPC / EIO / EPIPE at every kind of step, event trace compared with the model, final state checked; /dev/full on the real OS.',
+        note=BASE + 'PARTIAL by nature: durability beyond close() (no fsync in the code) and kernel crashes are outside any executable model.',
+        technique='Lean 4 proof (invariant over trace prefixes) + fault-injection correspondence',
+        ref='§4 C12'),
+    'C18': dict(
+        text='Theorems over ALL environments: the UD module consulted is udparsers.<creator lower><comp %04x> and no other module matters; it receives subtype, '
+             'version and exact payload; the SRC module is <creator>src, for BMC the component of the reference code or bsrc for BC codes, and receives the '
+             'reference code and eight hex words; raising / absent / empty results yield no SRC Details and nothing else; with plugins disabled every '
+             'environment gives the same result; m2c00 always returns an object and routes 72/73/84 by version. Pins: subtypes, drawer versions, formats. '
+             'Correspondence: fixture modules of every behaviour, an import hook logging every import attempt, the shipped m2c00.',
+        note=BASE + 'importlib is an environment parameter; the import log on the real side is a sys.meta_path finder.',
+        technique='Lean 4 proof (dependence of the result on one environment point) + differential correspondence with an import hook',
+        ref='§4 C18'),
+    'C19': dict(
+        text='Theorems: caches are coherent initially and after every decode (any input, any touched modules); with coherent caches a decode equals a fresh '
+             'decode; hence after ANY history the result for b is the result of decoding b first; a poisoned cache (the repaired defect) is not coherent. '
+             'Correspondence/observation: histories of 2..30 decodes in one process (failing, filtered, plugin-raising steps, plugins toggled) compared '
+             'step by step with the stateless model and, sampled, with a fresh interpreter; the real caches are inspected after every step; -a vs -f and -a vs -a -r.',
+        note=BASE + 'Only the three module caches are cross-decode state in the model: state a change might ADD is caught by the history runs only.',
+        technique='Lean 4 proof (cache-coherence invariant => history independence) + history-vs-fresh-interpreter correspondence',
+        ref='§4 C19'),
+})
+
 PENDING = {
 }
 
@@ -132,7 +214,7 @@ def main():
           for pid in ALL if pid not in CLAIMED]
     m = {
         'version': 1,
-        'setup_cmd': 'cd lean && lake build PelModel PelGen peldrv && lake build PelProofs PelProps',
+        'setup_cmd': '/venv/bin/python harness/extract.py && cd lean && lake build PelModel PelGen peldrv && lake build ' + ' '.join('PelProps.' + p for p in sorted(CLAIMED)),
         'hooks': {
             'guard': 'OPENPOWER_PEL_PARSERS_VERIF',
             'enable': 'no instrumentation is compiled into the repository: all observation is external (in-process monkey patching inside the harness, subprocess runs, tree snapshots); the guard variable is unused',
